@@ -13,6 +13,7 @@ import subprocess
 import sys
 import time
 
+sys.dont_write_bytecode = True
 sys.path.insert(0, os.path.dirname(os.path.abspath(__file__)))
 from _common import (scratch_project, require, emit, run_replay, load_plan, PY,  # noqa: E402
                      clean_env, children_of, pid_state, wait_until, HarnessError)
